@@ -68,6 +68,16 @@ def cases(rng, tier):
         f1 = R.rpoly(rng, rng.randrange(0, 6), bits); g1 = R.rpoly(rng, rng.randrange(0, 6), bits)
         c1 = rng.choice([1, -1, 2, -6, 35, 2 ** 30]); c2 = rng.choice([1, -1, 3, -4, 14, 2 ** 31])
         add(R.pscale(c1, R.pmul(h, f1)), R.pscale(c2, R.pmul(h, g1)), 'planted-deg-h=%d' % dh)
+    # common factors that vanish or drop in degree modulo a word-size prime (998244353, 10^9+7, 2^31-1, 2^61-1, 65537, and small
+    # primes): the leading coefficient -- or every non-constant coefficient -- of h is a multiple of the prime, the cofactors are small
+    for k in range(60 if not th else 600):
+        P = rng.choice([998244353, 998244353, 10 ** 9 + 7, 2 ** 31 - 1, 2 ** 61 - 1, 65537, 469762049, 2, 3, 5, 7])
+        dh = rng.randrange(1, 4)
+        h = [rng.randrange(-9, 10) or 1] + [(P * rng.randrange(-3, 4)) if rng.random() < 0.6 else rng.randrange(-9, 10) for _ in range(dh - 1)] \
+            + [P * rng.choice([1, 1, -1, 2, -3])]
+        if rng.random() < 0.3: h = [h[0]] + [P * (c_ // P if c_ % P == 0 else rng.randrange(-2, 3)) for c_ in h[1:-1]] + [h[-1]]
+        f1 = R.rpoly(rng, rng.randrange(1, 4), 4); g1 = R.rpoly(rng, rng.randrange(1, 4), 4)
+        add(R.pscale(rng.choice([1, -1, 6]), R.pmul(h, f1)), R.pscale(rng.choice([1, -4, 1]), R.pmul(h, g1)), 'planted-factor-vanishing-mod-prime')
     # coprime random pairs
     for k in range(100 if not th else 1000):
         bits = rng.choice([2, 8, 32, 64])
